@@ -273,6 +273,32 @@ thread_local! {
     /// which error kind the scripted device failures use (set by the `:k` suffix of a `port` case's fail token)
     pub static FAIL_KIND: std::cell::Cell<char> = const { std::cell::Cell::new('n') };
 }
+/// Every other stable `io::ErrorKind` (fail-token suffixes `A`..): "temporary"-sounding kinds such as
+/// ResourceBusy, WouldBlock or ConnectionReset are refusals like any other.
+pub const IO_KINDS: [io::ErrorKind; 22] = [
+    io::ErrorKind::NotFound,
+    io::ErrorKind::ConnectionRefused,
+    io::ErrorKind::ConnectionReset,
+    io::ErrorKind::ConnectionAborted,
+    io::ErrorKind::NotConnected,
+    io::ErrorKind::AddrInUse,
+    io::ErrorKind::AddrNotAvailable,
+    io::ErrorKind::BrokenPipe,
+    io::ErrorKind::AlreadyExists,
+    io::ErrorKind::InvalidInput,
+    io::ErrorKind::InvalidData,
+    io::ErrorKind::WriteZero,
+    io::ErrorKind::Unsupported,
+    io::ErrorKind::UnexpectedEof,
+    io::ErrorKind::OutOfMemory,
+    io::ErrorKind::ResourceBusy,
+    io::ErrorKind::HostUnreachable,
+    io::ErrorKind::NetworkDown,
+    io::ErrorKind::StorageFull,
+    io::ErrorKind::Deadlock,
+    io::ErrorKind::ArgumentListTooLong,
+    io::ErrorKind::QuotaExceeded,
+];
 fn dev_err(what: &str) -> serial_core::Error {
     use serial_core::ErrorKind as K;
     let kind = match FAIL_KIND.with(|c| c.get()) {
@@ -282,6 +308,10 @@ fn dev_err(what: &str) -> serial_core::Error {
         'o' => K::Io(io::ErrorKind::Other),
         'w' => K::Io(io::ErrorKind::WouldBlock),
         'p' => K::Io(io::ErrorKind::PermissionDenied),
+        c @ 'A'..='Z' => match IO_KINDS.get(c as usize - 'A' as usize) {
+            Some(k) => K::Io(*k),
+            None => K::NoDevice,
+        },
         _ => K::NoDevice,
     };
     serial_core::Error::new(kind, what.to_string())
@@ -400,7 +430,7 @@ pub fn show_settings(s: &PortSettings) -> String {
 pub fn parse_fail(s: &str) -> Option<FailAt> {
     // optional `:k` suffix: the kind of error the refusing call returns (n v i t o w p)
     let (s, kind) = match s.split_once(':') {
-        Some((a, k)) if k.len() == 1 && "nvitowp".contains(k) => (a, k.chars().next().unwrap()),
+        Some((a, k)) if k.len() == 1 && ("nvitowp".contains(k) || k.chars().all(|c| c.is_ascii_uppercase())) => (a, k.chars().next().unwrap()),
         Some(_) => return None,
         None => (s, 'n'),
     };
@@ -451,6 +481,9 @@ pub struct SerialObs {
 pub fn serial_once(m: &Message<'static>, rd: VecDeque<REv>, wr: VecDeque<WEv>) -> Option<SerialObs> {
     let port = MockPort::new(rd, wr, weird_settings(), FailAt::Never);
     let mut bus = SerialSignBus::try_new(port).ok()?;
+    // a pending wake-up token on the calling thread (any library the caller uses may leave one): a pause
+    // built on a timed park instead of a sleep returns at once when it finds it
+    std::thread::current().unpark();
     let r = bus.process_message(m.clone());
     let t_ret = Instant::now();
     let p = bus.port();
@@ -531,6 +564,7 @@ pub fn serial_multi_once(msgs: &[Message<'static>], rd: VecDeque<REv>, wr: VecDe
             let p = bus.port();
             (p.wr.times.len(), p.rd.times.len(), p.wr.delivered.len())
         };
+        std::thread::current().unpark(); // see serial_once
         let r = bus.process_message(m.clone());
         let t_ret = Instant::now();
         let p = bus.port();
